@@ -24,6 +24,8 @@ PROBED (what is run, over which domain):
      scanReadsCurrentSRO    a resolution order that changes in place between two lookups of the same interface objects (as
                       `classImplements` / `alsoProvides` do to a specification) is followed by the next lookup that scans:
                       after a miss, and after the cache was emptied (no memo of the scan order keyed on the objects)
+     keyTracksSRO           … and a WARM entry cached before the change does not answer afterwards: the cache key follows the
+                      resolution orders, not the identity of the specification objects (fix c18a9ea, F-C15c)
      cachedValuesImmutable  over a chain of three request interfaces R1 < R2 < R3 with views of their own, looked up in
                       all 6 orders, twice: no list returned earlier is ever changed by a later lookup of another key, every
                       result equals the cold result, and every cached entry stays what was written (no aliasing of values)
@@ -191,7 +193,7 @@ def _probe_find_views(out, P):
                 for r in args['request_iface'].__sro__ for c in args['context_iface'].__sro__ for t in args['view_types']]
 
     ok = dict(singleRead=True, cacheEmpty=False, writeUnderLock=True, probeBeforeScan=True, scanInLoop=True,
-              returnsLocal=True, multiViewScannedLast=True, cachedValuesImmutable=True, scanReadsCurrentSRO=True)
+              returnsLocal=True, multiViewScannedLast=True, cachedValuesImmutable=True, scanReadsCurrentSRO=True, keyTracksSRO=True)
 
     # ---- a hitting lookup (cold), explicit and default arguments, then warm --------------------------------
     for explicit in (True, False):
@@ -247,25 +249,31 @@ def _probe_find_views(out, P):
     if [e for e in reg.log if e[0] == 'reg'] != expected_scan(base):
         ok['scanInLoop'] = False
 
-    # ---- the scan follows the CURRENT resolution orders of the interface objects ----------------------------
-    follows = True
-    for warm_first in (False, True):
+    # ---- the scan AND the cache key follow the CURRENT resolution orders of the interface objects -------------
+    follows, tracks = True, True
+    for variant in ('miss', 'hit-then-clear', 'hit-warm'):
         Cm = _Iface('Cm', (C1,))
         Rm = _Iface('Rm', (R1,))
         Inew, Rnew = _Iface('Inew'), _Iface('Rnew')
         tableS = {((IViewClassifier, R1, Inew), IView, 'n'): 'v:new', ((IViewClassifier, Rnew, C1), IView, 'n'): 'v:rnew'}
-        if warm_first:
+        if variant != 'miss':
             tableS[((IViewClassifier, R1, C1), IView, 'n')] = 'v:old'
         reg = _FakeRegistry(tableS)
         argsS = dict(base, request_iface=Rm, context_iface=Cm)
-        call(reg, argsS)                                            # a miss (or a hit that gets cached)
+        call(reg, argsS)                                            # a miss, or a hit that gets cached
         Cm.__sro__ = (Cm, Inew, C1)                                 # the context now provides Inew …
         Rm.__sro__ = (Rm, Rnew, R1)                                 # … and the request interface extends Rnew
-        reg.persist = {}                                            # as after a clearing registration
+        if variant == 'hit-then-clear':
+            reg.persist = {}                                        # as after a clearing registration
         res = call(reg, argsS)
-        if [e for e in reg.log if e[0] == 'reg'] != expected_scan(argsS) or res != call(_FakeRegistry(tableS), argsS):
+        good = res == call(_FakeRegistry(tableS), argsS)
+        if variant == 'hit-warm':
+            if not good:
+                tracks = False                                      # the entry cached for the old orders answered
+        elif not good or [e for e in reg.log if e[0] == 'reg'] != expected_scan(argsS):
             follows = False
     ok['scanReadsCurrentSRO'] = follows
+    ok['keyTracksSRO'] = tracks
 
     # ---- cached values are never mutated by lookups of other keys (no aliasing) -------------------------------
     import itertools as _it
@@ -529,7 +537,7 @@ def facts(src_root):
         sys.path.insert(0, src_root)
     defaults = dict(clears=None, swapLast=None, freshDict=None, singleRead=None, cacheEmpty=None, writeUnderLock=None,
                     probeBeforeScan=None, scanInLoop=None, returnsLocal=None, keyCoversScan=None, multiviewFirst=None,
-                    multiViewScannedLast=None, cachedValuesImmutable=None, scanReadsCurrentSRO=None, multiviewStateless=None, clearDropsEverything=None, fallbackFreshDict=None, lockIsLock=None, registerViewCalls=0,
+                    multiViewScannedLast=None, cachedValuesImmutable=None, scanReadsCurrentSRO=None, keyTracksSRO=None, multiviewStateless=None, clearDropsEverything=None, fallbackFreshDict=None, lockIsLock=None, registerViewCalls=0,
                     keyFields=['unknown'], scanInputs=['unknown'])
     out.update(defaults)
     try:
@@ -553,13 +561,13 @@ def facts(src_root):
         P.append('ast cross-check failed: %s' % e)
         out['astSingleLoad'] = None
     for k in ('clears', 'swapLast', 'freshDict', 'singleRead', 'cacheEmpty', 'writeUnderLock', 'probeBeforeScan', 'scanInLoop',
-              'returnsLocal', 'keyCoversScan', 'multiviewFirst', 'multiViewScannedLast', 'cachedValuesImmutable', 'scanReadsCurrentSRO', 'multiviewStateless', 'clearDropsEverything', 'fallbackFreshDict', 'lockIsLock'):
+              'returnsLocal', 'keyCoversScan', 'multiviewFirst', 'multiViewScannedLast', 'cachedValuesImmutable', 'scanReadsCurrentSRO', 'keyTracksSRO', 'multiviewStateless', 'clearDropsEverything', 'fallbackFreshDict', 'lockIsLock'):
         if out[k] is None:
             P.append('%s could not be determined' % k)
     out['recognised'] = not P
     summary.clear()
     summary.update({k: out[k] for k in ('recognised', 'clears', 'swapLast', 'freshDict', 'singleRead', 'cacheEmpty', 'writeUnderLock',
-                                        'keyFields', 'scanInputs', 'keyCoversScan', 'multiviewFirst', 'multiViewScannedLast', 'cachedValuesImmutable', 'scanReadsCurrentSRO', 'multiviewStateless', 'clearDropsEverything', 'problems')})
+                                        'keyFields', 'scanInputs', 'keyCoversScan', 'multiviewFirst', 'multiViewScannedLast', 'cachedValuesImmutable', 'scanReadsCurrentSRO', 'keyTracksSRO', 'multiviewStateless', 'clearDropsEverything', 'problems')})
     return out
 
 
@@ -608,6 +616,8 @@ def generate(src_root):
          'def cachedValuesImmutable : Bool := ' + _b(f['cachedValuesImmutable'], False),
          '/-- a lookup that scans uses the resolution orders the interface objects have AT THAT MOMENT -/',
          'def scanReadsCurrentSRO : Bool := ' + _b(f['scanReadsCurrentSRO'], False),
+         '/-- the cache key follows the resolution orders: an entry cached before they changed does not answer afterwards -/',
+         'def keyTracksSRO : Bool := ' + _b(f['keyTracksSRO'], False),
          '/-- a MultiView answers as a function of (registrations in force, request): same Accept header before/after a member is added/replaced; no growth under odd headers -/',
          'def multiviewStateless : Bool := ' + _b(f['multiviewStateless'], False),
          '/-- the inputs of `_find_views` the cache key distinguishes -/',
